@@ -270,37 +270,51 @@ Definition ok_C06 (p : cfg) (os : list obs) : bool := mon_run (chk_C06 p) mon0 o
 Definition data_kind (k : kind) : bool := negb (kind_eqb k KCtl).
 Definition cond_eqb (a b : cstate * bool) : bool := cstate_eqb (fst a) (fst b) && Bool.eqb (snd a) (snd b).
 
+Definition refused_res (r : option result) : bool :=
+  match r with Some RNotSelected | Some RNotOpen => true | _ => false end.
+
 Definition chk_gate (m : mon) (o : obs) : bool :=
   match o with
   | OPeerRecv g origin f =>
       (* no byte of a refused send reaches any socket *)
-      negb (existsb (fun c => (mc_id c =? origin) &&
-                              match mc_res c with Some RNotSelected | Some RNotOpen => true | _ => false end) (m_calls m))
+      negb (existsb (fun c => (mc_id c =? origin) && refused_res (mc_res c)) (m_calls m))
   | ORet id r el =>
       match mc_get id (m_calls m) with
       | None => false
       | Some c =>
-          (match r with
-           | RNotSelected | RNotOpen => negb (existsb (fun e => fst (fst e) =? id) (m_recv m))
-           | _ => true
-           end) &&
-          (* declared not-selected (resp. never opened) throughout the call => refused with that error *)
-          (match mc_cond c with
-           | Some (s0, op0) =>
-               if data_kind (mc_kind c) && (mc_cseq c =? m_cseq m) && negb (cstate_eqb s0 SEL) then
-                 match r with
-                 | RNotSelected => op0
-                 | RNotOpen => negb op0
-                 | _ => false
-                 end
-               else true
-           | None => true
-           end)
+          match r with
+          | RNotSelected | RNotOpen => negb (existsb (fun e => fst (fst e) =? id) (m_recv m))
+          | _ => true
+          end
       end
   | OMetric d =>
+      (* the drop counter grew by exactly the number of not-selected refusals *)
       match m_metric m with
       | Some d0 => d =? d0 + m_refused m
       | None => true
+      end
+  | _ => true
+  end.
+
+(* declared not-selected (resp. never opened) throughout the call => refused with that error
+   (a harness-side clause: it needs the harness to declare the condition at a quiescent point) *)
+Definition chk_declared (m : mon) (o : obs) : bool :=
+  match o with
+  | ORet id r el =>
+      match mc_get id (m_calls m) with
+      | None => false
+      | Some c =>
+          match mc_cond c with
+          | Some (s0, op0) =>
+              if data_kind (mc_kind c) && (mc_cseq c =? m_cseq m) && negb (cstate_eqb s0 SEL) then
+                match r with
+                | RNotSelected => op0
+                | RNotOpen => negb op0
+                | _ => false
+                end
+              else true
+          | None => true
+          end
       end
   | _ => true
   end.
@@ -334,5 +348,5 @@ Definition chk_inbound (m : mon) (o : obs) : bool :=
   | _ => true
   end.
 
-Definition chk_C07 (m : mon) (o : obs) : bool := chk_gate m o && chk_inbound m o.
+Definition chk_C07 (m : mon) (o : obs) : bool := chk_gate m o && chk_declared m o && chk_inbound m o.
 Definition ok_C07 (os : list obs) : bool := mon_run chk_C07 mon0 os.
